@@ -214,9 +214,9 @@ def add_anomalies(rng, rows):
         for r in rows:
             if r[3] == 0 and rng.uniform() < 0.3:
                 r[2] = float(rng.uniform(0, 5000))
-    elif k < 0.30:    # type 1 with NaN
+    elif k < 0.30:    # type 1 (or VV) with NaN
         for r in rows:
-            if r[3] == 1 and rng.uniform() < 0.2:
+            if r[3] in (1, -1) and rng.uniform() < 0.2:
                 r[2] = float('nan')
     elif k < 0.42:    # missing lower types
         multi = {}
